@@ -87,6 +87,23 @@ def handle (j : Json) : Json :=
       | _ => none
     let r := runElem { cls := cls, name := init.toList, handle := init.toList } ops'
     ok (Json.arr #[.str (String.ofList r.name), .str (String.ofList r.handle)])
+  | .arr #[.str "kept", .str cls, .str init, .arr ops] =>
+    -- one kept sliver: a history of set_name / set_boot_script calls (the route - setter, set_property, set_properties - dispatches
+    -- to the same setter), then the object is encoded and decoded
+    let ops' := ops.toList.filterMap fun o =>
+      match o with
+      | .arr #[.str "name", _, v] => some (SetOp.name (toVal v))
+      | .arr #[.str "boot", _, v] => some (SetOp.boot (toVal v))
+      | _ => none
+    let s := runSliver repoKept { cls := cls, name := .str init.toList, boot := .none } ops'
+    let show_ : Val → Json := fun v => match v with
+      | .none => Json.null
+      | .str x => Json.str (String.ofList x)
+      | _ => Json.str "<other>"
+    let back := match reDecode repoKept s with
+      | .ok s' => if s' = s then "same" else "differs"
+      | .error _ => "err"
+    ok (Json.arr #[show_ s.name, show_ s.boot, .str back])
   | .arr #[.str "boot", v] => reply (setBoot (toVal v)) (fun o => match o with | none => Json.null | some s => Json.str (String.ofList s))
   | .arr #[.str "jsonstr", .str cls, .num n, .bool valid] => reply (jsonStr cls n.mantissa.toNat valid) (fun _ => Json.bool true)
   | .arr #[.str "jsonobj", .str cls, .bool dok, .num n] => reply (jsonObj cls dok n.mantissa.toNat) (fun _ => Json.bool true)
